@@ -1,13 +1,13 @@
 SPECIFICATION Spec
 CONSTANTS
-  NUp = 2
-  NDown = 2
-  Retries = 3
-  NegAttempts = 10
-  MaxLoss = 9
-  MaxNegLoss = 2
-  MaxRestarts = 0
-  PeerModes <- ModesSL
+  NUp = 1
+  NDown = 1
+  Retries = 2
+  NegAttempts = 3
+  MaxLoss = 2
+  MaxNegLoss = 3
+  MaxRestarts = 2
+  PeerModes <- ModesAll
   DenyReplies <- DenyOne
   AckTails <- TailsRssi
   Bug = "none"
@@ -18,4 +18,5 @@ INVARIANT SafelinkIffEcho
 INVARIANT NeedsResendingIsNotSafelink
 INVARIANT Lockstep
 INVARIANT TypeOK
+CONSTRAINT InQBound
 CHECK_DEADLOCK FALSE
